@@ -34,3 +34,40 @@ package shard
 //@ func (*Shard).setEpochEventHandler
 //@   property C47
 //@   mode bv
+
+// ---- C46 (restore): a dump must restore identically however the reader splits the
+// stream into chunks. readInto(buf) is the number of bytes the last read stored into buf
+// (a function of the slice header during one loop iteration); it equals len(buf) only when
+// io.ReadFull returned nil; a plain Reader.Read only promises 0 <= n <= len(buf).
+// Every consumer of a record buffer demands a completely filled buffer; the magic
+// comparison demands at least a read that insists on filling it (io.ReadFull), because the
+// code deliberately ignores that call's error and relies on the zero tail not matching.
+
+//@ ghost pred readInto(buf []byte) int
+//@ ghost pred fullReadAttempted(buf []byte) bool
+
+//@ callrule restore_readfull_facts in (*Shard).Restore
+//@   property C46
+//@   callee io.ReadFull
+//@   defines fullReadAttempted(a1) && (err == nil ==> readInto(a1) == len(a1))
+//@ callrule restore_read_facts in (*Shard).Restore
+//@   property C46
+//@   callee (io.Reader).Read
+//@   defines err == nil ==> 0 <= readInto(a0) && readInto(a0) <= len(a0)
+
+//@ callrule restore_decodes_only_complete_records in (*Shard).Restore
+//@   property C46
+//@   callee (*object.Object).Unmarshal
+//@   requires [record_buffer_completely_read] readInto(a0) == len(a0)
+//@ callrule restore_length_prefix_complete in (*Shard).Restore
+//@   property C46
+//@   callee (binary.littleEndian).Uint32
+//@   requires [length_prefix_completely_read] readInto(a0) == len(a0)
+//@ callrule restore_magic_read_insists in (*Shard).Restore
+//@   property C46
+//@   callee bytes.Equal
+//@   requires [magic_read_insists_on_four_bytes] fullReadAttempted(a0)
+
+//@ func (*Shard).Restore
+//@   property C46
+//@   mode bv
